@@ -62,6 +62,22 @@ CHECKS = {
             'property is also checked directly on the toolbox.',
             'routine names are compared as (name, id) pairs; injectivity of name_<decimal id> is not proved.',
             'Coq proof (dispatch-table invariant) + toolbox/model correspondence + direct check', '6 C05'),
+    'C06': ('proof', 'Theorems (Props/C06.v) over Matlab/Ids.v+Arity.v: default expansion yields exactly the arities n..n-k in '
+            'order, each overload a prefix of the declared list, gaps rejected; unwrap positions consecutive from the offset; '
+            'the call passes explicit parameters by name and omitted defaults by their original text. Static-method outputs '
+            'refuted (always varargout{1}; pinned). Tie: per gateway id the COMPLETE C++ routine text and the MATLAB guard and '
+            'call lines of the generated toolbox equal the model byte for byte (whitespace-only differences ignored), plus '
+            'count/position agreement checked directly, plus a stream of default-gap inputs that must be rejected.',
+            'two crash classes of the MATLAB wrapper are recorded findings; the C++ compiler is not run in the quick tier.',
+            'Coq proof (expansion arithmetic) + byte-level routine correspondence + direct checks', '6 C06'),
+    'C10': ('proof', 'Theorems (Props/C10.v): the files written equal the expected set (one classdef per non-ignored '
+            'instantiation, enum classdefs incl. class-scoped ones below the class package, one file per function name, '
+            '+package paths, one MEX source) at any namespace depth; class-enum path refuted for depth >= 2 and proved for the '
+            'repaired quirk; preamble list characterised. Tie: directory listing, classdef skeletons (name, base, pointer '
+            'property, properties, methods, statics), enumerator numbering, collector typedefs/declarations, '
+            'deleteAllObjects, RTTI and instantiation typedefs parsed from the generated toolbox vs Matlab/Files.v.',
+            'skeleton facts are model-vs-output comparisons, not theorems.',
+            'Coq proof (file set) + toolbox/model correspondence', '6 C10'),
     'C13': ('proof', 'Theorems (Props/C13.v): an instantiation is a function of its own argument tuple only (lists are '
             'never read), pointwise image of the product; alpha-invariance on the C02 domain via the substitution spec; '
             'refuted in general by the substring rewrite (recorded). Tie: metamorphic experiments on the implementation '
